@@ -25,11 +25,13 @@ import (
 	"go.opentelemetry.io/collector/confmap"
 	"go.opentelemetry.io/collector/connector"
 	"go.opentelemetry.io/collector/consumer"
+	"go.opentelemetry.io/collector/consumer/xconsumer"
 	"go.opentelemetry.io/collector/exporter"
 	"go.opentelemetry.io/collector/extension"
 	"go.opentelemetry.io/collector/internal/sharedcomponent"
 	"go.opentelemetry.io/collector/processor"
 	"go.opentelemetry.io/collector/receiver"
+	"go.opentelemetry.io/collector/receiver/xreceiver"
 	"go.opentelemetry.io/collector/service"
 	"go.opentelemetry.io/collector/service/extensions"
 	"go.opentelemetry.io/collector/service/telemetry"
@@ -113,14 +115,17 @@ func (sw *vSharedWorld) node(sig string, id component.ID) (*vSharedNode, error) 
 }
 
 func (sw *vSharedWorld) factory() receiver.Factory {
-	return receiver.NewFactory(vSharedType, vDefCfg,
-		receiver.WithTraces(func(_ context.Context, s receiver.Settings, _ component.Config, _ consumer.Traces) (receiver.Traces, error) {
+	return xreceiver.NewFactory(vSharedType, vDefCfg,
+		xreceiver.WithProfiles(func(_ context.Context, s receiver.Settings, _ component.Config, _ xconsumer.Profiles) (xreceiver.Profiles, error) {
+			return sw.node("profiles", s.ID)
+		}, vStab),
+		xreceiver.WithTraces(func(_ context.Context, s receiver.Settings, _ component.Config, _ consumer.Traces) (receiver.Traces, error) {
 			return sw.node("traces", s.ID)
 		}, vStab),
-		receiver.WithMetrics(func(_ context.Context, s receiver.Settings, _ component.Config, _ consumer.Metrics) (receiver.Metrics, error) {
+		xreceiver.WithMetrics(func(_ context.Context, s receiver.Settings, _ component.Config, _ consumer.Metrics) (receiver.Metrics, error) {
 			return sw.node("metrics", s.ID)
 		}, vStab),
-		receiver.WithLogs(func(_ context.Context, s receiver.Settings, _ component.Config, _ consumer.Logs) (receiver.Logs, error) {
+		xreceiver.WithLogs(func(_ context.Context, s receiver.Settings, _ component.Config, _ consumer.Logs) (receiver.Logs, error) {
 			return sw.node("logs", s.ID)
 		}, vStab))
 }
@@ -135,7 +140,11 @@ func TestVerifC10E2E(t *testing.T) {
 		// at least two pipelines of different signals share a receiver id; then turn a random
 		// non-empty subset of the regular receiver ids into shared ones (type vs)
 		if len(topo.pipes) >= 2 && rng.Intn(5) != 0 {
-			sigs := []string{"traces", "metrics", "logs"}
+			sigs := []string{"traces", "metrics", "logs", "profiles"}
+			rng.Intn(1)
+			if rng.Intn(3) == 0 { // sometimes the profiles signal takes part in the sharing
+				sigs[rng.Intn(3)] = "profiles"
+			}
 			for pi := 0; pi < len(topo.pipes) && pi < 3; pi++ {
 				if pi < 2 || rng.Intn(2) == 0 {
 					topo.pipes[pi].sig = sigs[pi]
